@@ -109,11 +109,17 @@ func genPos(r *Rng, size int) int {
 	return math.MaxInt
 }
 
-// fillIdx expands a Fill op (A = [n, start]) into n table indices.
+// fillIdx expands a Fill op (A = [n, start] or [n, start, stride]) into n table indices: stride 7 by
+// default (distinct elements as long as the table size is no multiple of 7), stride 1 for insertion in
+// table order (ascending under the natural comparators).
 func fillIdx(a []int) []int {
+	stride := 7
+	if len(a) > 2 && a[2] != 0 {
+		stride = a[2]
+	}
 	out := make([]int, a[0])
 	for i := range out {
-		out[i] = a[1] + i*7
+		out[i] = a[1] + i*stride
 	}
 	return out
 }
@@ -224,4 +230,45 @@ func probeTab[T any](tab []T, cfg Cfg, opID int) []T {
 		out[i] = tab[derive(opID, 900+i, len(tab))]
 	}
 	return out
+}
+
+// argDamage compares a slice that was passed to a container operation with the copy taken before the
+// call: same length, same elements, and the spare capacity behind it still zero.
+func argDamage[T comparable](vs, before []T, str func(T) string) string {
+	if len(vs) != len(before) {
+		return ""
+	}
+	for i := range vs {
+		if str(vs[i]) != str(before[i]) {
+			return fmt.Sprintf("element %d of the passed slice was %s before the call and is %s after it (passed %s)", i, str(before[i]), str(vs[i]), joinS(before, str))
+		}
+	}
+	var zero T
+	for i, x := range vs[len(vs):cap(vs)] {
+		if str(x) != str(zero) {
+			return fmt.Sprintf("the callee wrote %s into the spare capacity of the passed slice (offset %d past its length; passed %s)", str(x), i, joinS(before, str))
+		}
+	}
+	return ""
+}
+
+// sameElem / sameSeq: element identity as the oracles mean it. For floats == conflates -0 with +0 (and
+// NaN with nothing), so float elements are compared through their exact rendering.
+func sameElem[T comparable](d *Dom[T], a, b T) bool {
+	if d.Elem == "float" {
+		return d.Str(a) == d.Str(b)
+	}
+	return a == b
+}
+
+func sameSeq[T comparable](d *Dom[T], a, b []T) bool {
+	if len(a) != len(b) {
+		return false
+	}
+	for i := range a {
+		if !sameElem(d, a[i], b[i]) {
+			return false
+		}
+	}
+	return true
 }
